@@ -186,7 +186,9 @@ VARIANTS = [
     # ---------------- R-PAIRS[broadcast-nax] (C19, C08)
     V("size-1 codes broadcast only for multi-axis reductions", ("C19", "C08"), "R-PAIRS[broadcast-nax]", "core.py", '    order = "C"\n    if nax >= 1:\n', '    order = "C"\n    if nax > 1:\n', must_mention="nax > 1"),
     # ---------------- R-KINDMISSING singleton-group clause (C10)
-    V("singleton-group shortcut hands NaN on for nancumsum", ("C10",), "R-KINDMISSING", "core.py", '        if agg.mode == "apply_binary_op":\n            # a NaN-skipping accumulation (nancumsum) of a lone NaN is the identity\n            array = np.where(isnull(array), agg.identity, array)\n', '', must_mention="singleton"),
+    V("singleton-group shortcut hands NaN on for nancumsum", ("C10",), "R-KINDMISSING", "core.py", '        if agg.mode == "apply_binary_op" and array.dtype.kind in "fc":\n            # a NaN-skipping accumulation (nancumsum) of a lone NaN is the identity\n            array = np.where(np.isnan(array), agg.identity, array)\n', '', must_mention="singleton"),
+    # ---------------- R-COMBINEBYPASS (C02, C12)
+    V("grouped combine skips the second reduction when no label recurs", ("C02", "C12"), "R-COMBINEBYPASS", "core.py", '        avoid_reduction = array_idx[0].shape[axis[0]] == 1\n', '        avoid_reduction = len(_unique(groups)) == groups.size\n', must_mention="value-dependent"),
     # ---------------- R-LOOPSTORE (C09, C19)
     V("cohort map overwrites a repeated block set", ("C09", "C19"), "R-LOOPSTORE", "core.py", '        merged_cohorts[chunk] = sorted(merged_cohorts.get(chunk, []) + cohort)', '        merged_cohorts[chunk] = cohort', must_mention="merged_cohorts"),
     V("twin: cohort map merges under an explicit membership test", ("C09", "C19", "C02"), "", "core.py", '        merged_cohorts[chunk] = sorted(merged_cohorts.get(chunk, []) + cohort)',
